@@ -139,7 +139,16 @@ func (b *bb) runBatch(kind, ver string, size uint, nocopy bool, timeout time.Dur
 			}
 		}
 	}()
+	// the producer keeps (and re-reads) what it wrote: the discipline must not hand the
+	// producer's memory to a consumer that is entitled to modify what it receives (copy mode)
+	saved := make([][]int, len(inputs))
+	for i, xs := range inputs {
+		saved[i] = append([]int(nil), xs...)
+	}
+	prodDone := make(chan struct{})
 	go func() {
+		defer close(prodDone)
+		sum := 0
 		for i, xs := range inputs {
 			if pause != nil {
 				pause(i)
@@ -147,8 +156,28 @@ func (b *bb) runBatch(kind, ver string, size uint, nocopy bool, timeout time.Dur
 			offered[i] = time.Now()
 			feed(i, xs)
 			accepted[i] = time.Now()
+			if !nocopy {
+				for _, prev := range inputs[:i+1] {
+					for _, v := range prev {
+						sum += v
+					}
+				}
+			}
 		}
 		closeIn()
+		_ = sum
+	}()
+	defer func() {
+		<-prodDone
+		if nocopy {
+			return
+		}
+		for i, xs := range inputs {
+			if !reflect.DeepEqual(xs, saved[i]) && !(len(xs) == 0 && len(saved[i]) == 0) {
+				b.fail("C08 %s %s copy mode: the producer's input slice %d changed from %v to %v: a delivered slice, which the consumer modifies, shares its memory", kind, ver, i, saved[i], xs)
+				return
+			}
+		}
 	}()
 	deadline := time.After(30 * time.Second)
 	for {
